@@ -607,3 +607,59 @@ def check_effect_tables(ctx, prop):
         check_effect_table(ctx, prop + ".TABLE", f, "what %s stores, does and returns under each condition is what was confirmed for it" % q.split(".", 1)[-1])
         n += 1
     return n
+
+
+def baseline_function(qualname):
+    """FunctionDef of the confirmed baseline version of a function (canonicalised like the current tree)."""
+    from . import summ, canon
+    body = summ.baseline_body(qualname)
+    tree = ast.parse(body)
+    wrap = ast.FunctionDef(name="_baseline", args=ast.arguments(posonlyargs=[], args=[], kwonlyargs=[], kw_defaults=[], defaults=[]), body=tree.body or [ast.Pass()],
+                           decorator_list=[], returns=None, type_comment=None, type_params=[])
+    mod = ast.Module(body=[wrap], type_ignores=[])
+    mc = canon.ModuleCanon("<baseline>", mod, None, [])
+    mc.ifexp_to_if()
+    mc.lock_blocks()
+    ast.fix_missing_locations(mod)
+    return wrap
+
+
+def check_region_table(ctx, rule, func, pick, what, construct, **kw):
+    """A region of a large function (the statements `pick(function node)` selects - by what they mention, never by position)
+    has the confirmed effect table."""
+    from . import summ, equiv
+    cur = pick(func.node)
+    base = pick(baseline_function(func.qualname))
+    if not cur or not base:
+        raise AnalysisError(rule, func.qualname, "region `%s` not found (%d / %d statements)" % (construct, len(cur), len(base)))
+    kw.setdefault("loops", "body")
+    kw.setdefault("alpha", "auto")
+    return summ.check_ref(ctx, rule, cur, what, "\n".join(ast.unparse(s_) for s_ in base), construct, outcome=equiv.loose_outcome, where=func, **kw)
+
+
+def statements_mentioning(names, within=None):
+    """pick-function: the innermost statement list that has statements mentioning every name in `names`, cut to the span
+    from the first to the last statement that mentions any of them.  `within(stmt)` may restrict the search to the body of
+    a particular compound statement."""
+    names = set(names)
+
+    def mentions(st):
+        return set(x.id for x in ast.walk(st) if isinstance(x, ast.Name)) | set(x.attr for x in ast.walk(st) if isinstance(x, ast.Attribute))
+
+    def pick(fnode):
+        best = None
+        for block in _blocks(fnode):
+            hits = [i for i, st in enumerate(block) if mentions(st) & names]
+            if not hits:
+                continue
+            seen = set()
+            for i in hits:
+                seen |= mentions(block[i]) & names
+            if seen != names:
+                continue
+            span = block[hits[0]:hits[-1] + 1]
+            size = sum(1 for st in span for _ in ast.walk(st))
+            if best is None or size < best[0]:
+                best = (size, span)
+        return best[1] if best else []
+    return pick
